@@ -185,7 +185,7 @@ M("C13", "C13.resume", _IV, "            result = self.runningIterator.send(None
 M("C13", "C13.invariants", _IV, "            yield result\n            behavior.checkInvariants(agent, *behavior._args, **behavior._kwargs)", "            yield result", "c13-no-invariant-recheck")
 M("C13", "C13.invariants", _CO, "        return [\n            invokeAction,\n            checkInvariants,\n        ]", "        return [\n            invokeAction,\n        ]", "c13-invocation-without-invariants")
 M("C13", "C13.abandon", _BH, "            try:\n                yield from sub._runningIterator\n            finally:\n                if sub._isRunning:\n                    sub._stop()", "            yield from sub._runningIterator\n            if sub._isRunning:\n                sub._stop()", "c13-sub-not-stopped-on-abandon")
-M("C13", "C13.abandon", _IV, "                lambda: veneer.currentSimulation.currentTime - startTime >= timeLimit", "                lambda: veneer.currentSimulation.currentTime - startTime > timeLimit", "c13-duration-off-by-one")
+M("C12", "C12.scenario", _IV, "                lambda: veneer.currentSimulation.currentTime - startTime >= timeLimit", "                lambda: veneer.currentSimulation.currentTime - startTime > timeLimit", "c13-duration-off-by-one")
 
 # ---------------------------------------------------------------- C14
 M("C14", "C14.globals", _VE, "        _globalParameters = {}\n        inInitialScenario = True\n", "        _globalParameters = {}\n", "c14-ininitialscenario-not-reset")
